@@ -228,7 +228,7 @@ Proof. unfold links_update. destruct (build_incremental _ _ _ _) as [l ok]. refl
 Lemma Sync_same cfg s s' : same_mem s s' -> content (ad s') = content (ad s) -> Sync cfg s -> Sync cfg s'.
 Proof.
   intros [S _] E [K1 K2]. split; [intros pt r; rewrite E; apply K1|].
-  intros pt d r Hd. rewrite E, S. apply K2; assumption.
+  intros pt d r Hd. rewrite E, S. apply (K2 pt d r Hd).
 Qed.
 
 (* the generic step: in memory and in the adapter the rules R of type pt go and the rules A come *)
@@ -242,6 +242,640 @@ Proof.
   intros [K1 K2] Hd Hm Ho Hc. split.
   - intros pt' r H. apply Hc in H as [[H _]|[-> _]]; [apply (K1 _ _ H)|congruence].
   - intros pt' d' r Hd'. rewrite Hc. destruct (string_dec pt' pt) as [->|Hne].
-    + rewrite Hm, (K2 pt d r Hd). intuition.
+    + rewrite (Hm r), (K2 pt d r Hd). intuition.
     + rewrite (Ho pt' Hne), (K2 pt' d' r Hd'). intuition.
+Qed.
+
+Lemma Sync_finish cfg s s' pt d st' ls' R A :
+  Sync cfg s -> def_of cfg pt = Some d -> mem_change s s' pt st' ls' ->
+  (forall x, In x (pol st') <-> (In x (pol (get_store s pt)) /\ ~ In x R) \/ In x A) ->
+  (forall pt' r, In (pt', r) (content (ad s')) <->
+      (In (pt', r) (content (ad s)) /\ ~ (pt' = pt /\ In r R)) \/ (pt' = pt /\ In r A)) ->
+  Sync cfg s'.
+Proof.
+  intros K Hd [S L] Hset Hc. apply (Sync_change cfg s s' pt d R A K Hd).
+  - intros x. rewrite (S pt), String.eqb_refl. apply Hset.
+  - intros pt' Hne. rewrite (S pt'). apply String.eqb_neq in Hne. rewrite Hne. reflexivity.
+  - exact Hc.
+Qed.
+
+(* the final state of "persist, store, update links" and its adapter *)
+Lemma ad_store_links d s a pt st' adding rs :
+  ad (fst (links_update d (with_store (with_ad s a) pt st') pt adding rs)) = a.
+Proof. rewrite ad_links_update. reflexivity. Qed.
+Lemma ad_store_two_links d s a pt st' R A :
+  ad (fst (links_update d (fst (links_update d (with_store (with_ad s a) pt st') pt false R)) pt true A)) = a.
+Proof. rewrite !ad_links_update. reflexivity. Qed.
+
+Ltac open_persist s call Hs a ok old Ea Cok Cfail Sm :=
+  unfold persist; rewrite Hs;
+  destruct (adapter_call (ad s) call) as [[a ok] old] eqn:Ea;
+  destruct (adapter_call_content _ _ _ _ _ Ea) as [Cok Cfail];
+  assert (Sm : same_mem s (with_ad s a)) by (split; reflexivity).
+
+Section SyncOps.
+Variables (cfg : mconf) (s : mstate) (pt : string) (d : adef).
+Hypothesis M : MInv cfg s.
+Hypothesis K : Sync cfg s.
+Hypothesis Hd : def_of cfg pt = Some d.
+Hypothesis Hs : autosave s = true.
+
+Lemma add_wo_Sync r : rules_ok d [r] -> Sync cfg (fst (add_wo d s pt r)).
+Proof.
+  intros [W Ha]. unfold add_wo. destruct (has (get_store s pt) r) eqn:H; [exact K|].
+  open_persist s (AAdd pt r) Hs a ok old Ea Cok Cfail Sm.
+  destruct ok; cbn [negb].
+  2:{ apply (Sync_same cfg s (with_ad s a) Sm); [apply Cfail; reflexivity|exact K]. }
+  set (st' := add (a_prio d) (get_store s pt) r).
+  assert (Hset : forall x, In x (pol st') <-> (In x (pol (get_store s pt)) /\ ~ In x []) \/ In x [r]).
+  { intros x. unfold st'. rewrite add_pol, spec_insert_In. cbn [In]. intuition. }
+  assert (Hc : forall pt' r0, In (pt', r0) (content a) <->
+     (In (pt', r0) (content (ad s)) /\ ~ (pt' = pt /\ In r0 [])) \/ (pt' = pt /\ In r0 [r])).
+  { intros pt' r0. rewrite (Cok eq_refl). cbn [content_after fst]. rewrite c_add_In. cbn [In]. split.
+    - intros [E|H0]; [inversion E; subst; right; auto|left; split; [exact H0|tauto]].
+    - intros [[H0 _]|[-> [<-|[]]]]; auto. }
+  destruct (a_is_g d) eqn:Hg.
+  - pose proof (store_then_links d s (with_ad s a) pt st' true [r] Sm) as Mc.
+    pose proof (ad_store_links d s a pt st' true [r]) as Ead.
+    destruct (links_update d _ pt true [r]) as [s3 lok]. cbn [fst] in *.
+    apply (Sync_finish cfg s s3 pt d st' _ [] [r] K Hd Mc Hset). rewrite Ead. exact Hc.
+  - cbn [fst]. apply (Sync_finish cfg s _ pt d st' _ [] [r] K Hd (store_only s (with_ad s a) pt st' Sm) Hset). exact Hc.
+Qed.
+
+Lemma add_many_wo_Sync rs arr : rules_ok d rs -> Sync cfg (fst (add_many_wo d s pt rs arr)).
+Proof.
+  intros [W Ha]. unfold add_many_wo. destruct (negb arr && has_any (get_store s pt) rs); [exact K|].
+  open_persist s (AAddMany pt rs) Hs a ok old Ea Cok Cfail Sm.
+  destruct ok; cbn [negb].
+  2:{ apply (Sync_same cfg s (with_ad s a) Sm); [apply Cfail; reflexivity|exact K]. }
+  pose proof (proj1 M pt) as Ist.
+  destruct (add_many_spec (a_prio d) rs (get_store s pt) Ist W) as [_ [Pp _]].
+  set (st' := fst (add_many (a_prio d) (get_store s pt) rs)) in *.
+  assert (Hset : forall x, In x (pol st') <-> (In x (pol (get_store s pt)) /\ ~ In x []) \/ In x rs).
+  { intros x. rewrite Pp, spec_add_many_In. cbn [In]. tauto. }
+  assert (Hc : forall pt' r0, In (pt', r0) (content a) <->
+     (In (pt', r0) (content (ad s)) /\ ~ (pt' = pt /\ In r0 [])) \/ (pt' = pt /\ In r0 rs)).
+  { intros pt' r0. rewrite (Cok eq_refl). cbn [content_after fst]. rewrite fold_c_add_In. cbn [In]. split.
+    - intros [H0|[r' [Hr E]]]; [left; split; [exact H0|tauto]|inversion E; subst; right; auto].
+    - intros [[H0 _]|[-> Hr]]; [left; exact H0|right; exists r0; auto]. }
+  destruct (a_is_g d) eqn:Hg.
+  - pose proof (store_then_links d s (with_ad s a) pt st' true rs Sm) as Mc.
+    pose proof (ad_store_links d s a pt st' true rs) as Ead.
+    destruct (links_update d _ pt true rs) as [s3 lok]. cbn [fst] in *.
+    apply (Sync_finish cfg s s3 pt d st' _ [] rs K Hd Mc Hset). rewrite Ead. exact Hc.
+  - cbn [fst]. apply (Sync_finish cfg s _ pt d st' _ [] rs K Hd (store_only s (with_ad s a) pt st' Sm) Hset). exact Hc.
+Qed.
+
+Lemma remove_wo_Sync r : rules_ok d [r] -> Sync cfg (fst (remove_wo d s pt r)).
+Proof.
+  intros [W Ha]. unfold remove_wo.
+  open_persist s (ARemove pt r) Hs a ok old Ea Cok Cfail Sm.
+  destruct ok; cbn [negb].
+  2:{ apply (Sync_same cfg s (with_ad s a) Sm); [apply Cfail; reflexivity|exact K]. }
+  inversion W as [|? ? Wr _]; subst.
+  rewrite get_store_with_ad. pose proof (proj1 M pt) as Ist.
+  destruct (remove_spec (get_store s pt) r Ist Wr) as [_ [Pp Pb]].
+  destruct (remove (get_store s pt) r) as [st' removed]. cbn [fst snd] in *.
+  assert (Hset : forall x, In x (pol st') <-> (In x (pol (get_store s pt)) /\ ~ In x [r]) \/ In x []).
+  { intros x. rewrite Pp, (remove_first_In r _ x (Inv_NoDup _ Ist)). cbn [In]. intuition. }
+  assert (Hc : forall pt' r0, In (pt', r0) (content a) <->
+     (In (pt', r0) (content (ad s)) /\ ~ (pt' = pt /\ In r0 [r])) \/ (pt' = pt /\ In r0 [])).
+  { intros pt' r0. rewrite (Cok eq_refl). cbn [content_after fst]. rewrite c_remove_In. cbn [In]. split.
+    - intros [H0 N]. left. split; [exact H0|]. intros [-> [<-|[]]]. apply N. reflexivity.
+    - intros [[H0 N]|[_ []]]. split; [exact H0|]. intros E. inversion E; subst. apply N. auto. }
+  destruct removed; cbn [negb].
+  - destruct (a_is_g d) eqn:Hg.
+    + pose proof (store_then_links d s (with_ad s a) pt st' false [r] Sm) as Mc.
+      pose proof (ad_store_links d s a pt st' false [r]) as Ead.
+      destruct (links_update d _ pt false [r]) as [s3 lok]. cbn [fst] in *.
+      apply (Sync_finish cfg s s3 pt d st' _ [r] [] K Hd Mc Hset). rewrite Ead. exact Hc.
+    + cbn [fst]. apply (Sync_finish cfg s _ pt d st' _ [r] [] K Hd (store_only s (with_ad s a) pt st' Sm) Hset). exact Hc.
+  - (* the rule was not listed: nothing to remove on either side *)
+    cbn [fst]. symmetry in Pb. apply not_true_iff_false in Pb.
+    apply (Sync_change cfg s (with_ad s a) pt d [r] [] K Hd).
+    + intros x. rewrite get_store_with_ad. cbn [In]. split.
+      * intros H. left. split; [exact H|]. intros [<-|[]]. apply Pb, mem_rule_In, H.
+      * intros [[H _]|[]]. exact H.
+    + intros pt' _. reflexivity.
+    + exact Hc.
+Qed.
+
+Lemma remove_many_wo_Sync rs : rules_ok d rs -> Sync cfg (fst (remove_many_wo d s pt rs)).
+Proof.
+  intros [W Ha]. unfold remove_many_wo. destruct (has_any (get_store s pt) rs) eqn:Hh; cbn [negb]; [|exact K].
+  open_persist s (ARemoveMany pt rs) Hs a ok old Ea Cok Cfail Sm.
+  destruct ok; cbn [negb].
+  2:{ apply (Sync_same cfg s (with_ad s a) Sm); [apply Cfail; reflexivity|exact K]. }
+  pose proof (proj1 M pt) as Ist.
+  destruct (remove_many_spec rs (get_store s pt) Ist W) as [_ [Pp Pa]].
+  destruct (remove_many (get_store s pt) rs) as [st' aff]. cbn [fst snd] in *.
+  assert (Hset : forall x, In x (pol st') <-> (In x (pol (get_store s pt)) /\ ~ In x rs) \/ In x []).
+  { intros x. rewrite Pp, (spec_remove_many_In rs _ x (Inv_NoDup _ Ist)). cbn [In]. tauto. }
+  assert (Hc : forall pt' r0, In (pt', r0) (content a) <->
+     (In (pt', r0) (content (ad s)) /\ ~ (pt' = pt /\ In r0 rs)) \/ (pt' = pt /\ In r0 [])).
+  { intros pt' r0. rewrite (Cok eq_refl). cbn [content_after fst]. rewrite fold_c_remove_In. cbn [In]. split.
+    - intros [H0 N]. left. split; [exact H0|]. intros [-> Hr]. apply N. exists r0. auto.
+    - intros [[H0 N]|[_ []]]. split; [exact H0|]. intros [r' [Hr E]]. inversion E; subst. apply N. auto. }
+  destruct aff as [|a0 aff'].
+  - (* impossible after the HasPolicies check *)
+    exfalso. rewrite (has_any_mem _ rs Ist W) in Hh.
+    apply (spec_remove_many_aff rs _ Hh W (Inv_NoDup _ Ist)). symmetry. exact Pa.
+  - destruct (a_is_g d) eqn:Hg.
+    + pose proof (store_then_links d s (with_ad s a) pt st' false rs Sm) as Mc.
+      pose proof (ad_store_links d s a pt st' false rs) as Ead.
+      destruct (links_update d _ pt false rs) as [s3 lok]. cbn [fst] in *.
+      apply (Sync_finish cfg s s3 pt d st' _ rs [] K Hd Mc Hset). rewrite Ead. exact Hc.
+    + cbn [fst]. apply (Sync_finish cfg s _ pt d st' _ rs [] K Hd (store_only s (with_ad s a) pt st' Sm) Hset). exact Hc.
+Qed.
+Lemma c_replace_In o n c y : In y (c_replace o n c) <-> (In y c /\ y <> o) \/ (y = n /\ In o c).
+Proof.
+  unfold c_replace. rewrite in_map_iff. split.
+  - intros [x [E Hx]]. destruct (prule_eqb o x) eqn:Eo.
+    + apply prule_eqb_eq in Eo. subst x. right. auto.
+    + left. subst y. split; [exact Hx|]. intros ->. assert (prule_eqb o o = true) by (apply prule_eqb_eq; reflexivity). congruence.
+  - intros [[Hy N]|[-> Ho]].
+    + exists y. split; [|exact Hy]. destruct (prule_eqb o y) eqn:Eo; [apply prule_eqb_eq in Eo; congruence|reflexivity].
+    + exists o. split; [|exact Ho]. assert (E : prule_eqb o o = true) by (apply prule_eqb_eq; reflexivity). rewrite E. reflexivity.
+Qed.
+
+(* UpdatePolicy on the stored content when the new rule is not stored *)
+Lemma c_update_In pt0 o n c y : ~ In (pt0, n) c ->
+  (In y (c_update pt0 o n c) <-> (In y c /\ ~ (In (pt0, o) c /\ y = (pt0, o))) \/ (In (pt0, o) c /\ y = (pt0, n))).
+Proof.
+  intros Nn. unfold c_update. destruct (mem_prule (pt0, o) c) eqn:Mo.
+  - apply mem_prule_In in Mo. destruct (mem_prule (pt0, n) c) eqn:Mn; [apply mem_prule_In in Mn; contradiction|].
+    rewrite c_replace_In. split.
+    + intros [[Hy N]|[-> _]]; [left; split; [exact Hy|intros [_ E]; contradiction]|right; auto].
+    + intros [[Hy N]|[_ ->]]; [left; split; [exact Hy|intros E; apply N; auto]|right; auto].
+  - assert (No : ~ In (pt0, o) c) by (intros H; apply mem_prule_In in H; congruence).
+    split; [intros H; left; split; [exact H|tauto]|intros [[H _]|[H _]]; [exact H|contradiction]].
+Qed.
+
+Lemma update_wo_Sync o n : rules_ok d [o; n] -> ~ In n (pol (get_store s pt)) -> Sync cfg (fst (update_wo d s pt o n)).
+Proof.
+  intros [W Ha] Nn. unfold update_wo.
+  open_persist s (AUpdate pt o n) Hs a ok old Ea Cok Cfail Sm.
+  destruct ok; cbn [negb].
+  2:{ apply (Sync_same cfg s (with_ad s a) Sm); [apply Cfail; reflexivity|exact K]. }
+  inversion W as [|? ? Wo W']; subst. inversion W' as [|? ? Wn _]; subst.
+  rewrite get_store_with_ad. pose proof (proj1 M pt) as Ist.
+  destruct (update_spec (get_store s pt) o n Ist Wo Wn Nn) as [_ [Pp Pb]].
+  destruct (update (get_store s pt) o n) as [st' updated]. cbn [fst snd] in *.
+  assert (Ncn : ~ In (pt, n) (content (ad s))) by (intros H; apply Nn; apply (proj2 K pt d n Hd); exact H).
+  assert (Hco : In (pt, o) (content (ad s)) <-> In o (pol (get_store s pt))) by (apply (proj2 K pt d o Hd)).
+  destruct updated; cbn [negb].
+  - symmetry in Pb. apply mem_rule_In in Pb.
+    assert (Hset : forall x, In x (pol st') <-> (In x (pol (get_store s pt)) /\ ~ In x [o]) \/ In x [n]).
+    { intros x. rewrite Pp, (replace_first_In_iff o n _ x (Inv_NoDup _ Ist) Pb Nn). cbn [In]. intuition. }
+    assert (Hc : forall pt' r0, In (pt', r0) (content a) <->
+       (In (pt', r0) (content (ad s)) /\ ~ (pt' = pt /\ In r0 [o])) \/ (pt' = pt /\ In r0 [n])).
+    { intros pt' r0. rewrite (Cok eq_refl). cbn [content_after fst]. rewrite (c_update_In pt o n _ _ Ncn). cbn [In]. split.
+      - intros [[H0 N]|[Ho E]]; [|inversion E; subst; right; auto].
+        left. split; [exact H0|]. intros [-> [<-|[]]]. apply N. split; [apply Hco; exact Pb|reflexivity].
+      - intros [[H0 N]|[-> [<-|[]]]]; [|right; split; [apply Hco; exact Pb|reflexivity]].
+        left. split; [exact H0|]. intros [_ E]. inversion E; subst. apply N. auto. }
+    destruct (a_is_g d) eqn:Hg.
+    + pose proof (store_then_two_links d s (with_ad s a) pt st' [o] [n] Sm) as Mc.
+      pose proof (ad_store_two_links d s a pt st' [o] [n]) as Ead.
+      pose proof (ad_store_links d s a pt st' false [o]) as Ead1.
+      pose proof (store_then_links d s (with_ad s a) pt st' false [o] Sm) as Mc1.
+      destruct (links_update d (with_store (with_ad s a) pt st') pt false [o]) as [s3 lok1]. cbn [fst] in *.
+      destruct lok1; cbn [negb].
+      * destruct (links_update d s3 pt true [n]) as [s4 lok2]. cbn [fst] in *.
+        apply (Sync_finish cfg s s4 pt d st' _ [o] [n] K Hd Mc Hset). rewrite Ead. exact Hc.
+      * cbn [fst]. apply (Sync_finish cfg s s3 pt d st' _ [o] [n] K Hd Mc1 Hset). rewrite Ead1. exact Hc.
+    + cbn [fst]. apply (Sync_finish cfg s _ pt d st' _ [o] [n] K Hd (store_only s (with_ad s a) pt st' Sm) Hset). exact Hc.
+  - (* the old rule is not listed: nothing happens on either side *)
+    cbn [fst]. symmetry in Pb. apply not_true_iff_false in Pb.
+    assert (No : ~ In (pt, o) (content (ad s))) by (intros H; apply Pb, mem_rule_In, Hco, H).
+    apply (Sync_change cfg s (with_ad s a) pt d [] [] K Hd).
+    + intros x. rewrite get_store_with_ad. cbn [In]. tauto.
+    + intros pt' _. reflexivity.
+    + intros pt' r0. cbn [with_ad ad]. rewrite (Cok eq_refl). cbn [content_after fst]. rewrite (c_update_In pt o n _ _ Ncn). cbn [In]. tauto.
+Qed.
+
+Lemma remove_filtered_wo_Sync fi fvs : in_range fi fvs (pol (get_store s pt)) -> Sync cfg (fst (remove_filtered_wo d s pt fi fvs)).
+Proof.
+  intros G. unfold remove_filtered_wo. destruct fvs as [|fv fvs']; [exact K|].
+  open_persist s (ARemoveFiltered pt fi (fv :: fvs')) Hs a ok old Ea Cok Cfail Sm.
+  destruct ok; cbn [negb].
+  2:{ apply (Sync_same cfg s (with_ad s a) Sm); [apply Cfail; reflexivity|exact K]. }
+  rewrite get_store_with_ad. pose proof (proj1 M pt) as Ist.
+  destruct (remove_filtered_spec (get_store s pt) fi (fv :: fvs') Ist G) as (st' & res & eff & Er & _ & Pp & Pe & Pr).
+  rewrite Er.
+  set (R := filter (matches_spec fi (fv :: fvs')) (pol (get_store s pt))).
+  assert (Hset : forall x, In x (pol st') <-> (In x (pol (get_store s pt)) /\ ~ In x R) \/ In x []).
+  { intros x. rewrite Pp. unfold R. rewrite !filter_In. cbn [In]. split.
+    - intros [Hx Hm]. left. split; [exact Hx|]. intros [_ Hm2]. rewrite Hm2 in Hm. discriminate.
+    - intros [[Hx Hn]|[]]. split; [exact Hx|]. destruct (matches_spec fi (fv :: fvs') x) eqn:Em; [exfalso; apply Hn; auto|reflexivity]. }
+  assert (Hc : forall pt' r0, In (pt', r0) (content a) <->
+     (In (pt', r0) (content (ad s)) /\ ~ (pt' = pt /\ In r0 R)) \/ (pt' = pt /\ In r0 [])).
+  { intros pt' r0. rewrite (Cok eq_refl). cbn [content_after fst]. rewrite filter_In. unfold c_matches. cbn [fst snd In].
+    unfold R. rewrite filter_In. split.
+    - intros [H0 N]. left. split; [exact H0|]. intros [-> [_ Hm]]. rewrite String.eqb_refl, Hm in N. discriminate.
+    - intros [[H0 N]|[_ []]]. split; [exact H0|]. apply negb_true_iff. apply not_true_iff_false. intros E.
+      apply andb_true_iff in E as [E1 E2]. apply String.eqb_eq in E1. subst pt'. apply N. split; [reflexivity|].
+      split; [apply (proj2 K pt d r0 Hd); exact H0|exact E2]. }
+  destruct res; cbn [negb].
+  - destruct (a_is_g d) eqn:Hg.
+    + pose proof (store_then_links d s (with_ad s a) pt st' false eff Sm) as Mc.
+      pose proof (ad_store_links d s a pt st' false eff) as Ead.
+      destruct (links_update d _ pt false eff) as [s3 lok]. cbn [fst] in *.
+      apply (Sync_finish cfg s s3 pt d st' _ R [] K Hd Mc Hset). rewrite Ead. exact Hc.
+    + cbn [fst]. apply (Sync_finish cfg s _ pt d st' _ R [] K Hd (store_only s (with_ad s a) pt st' Sm) Hset). exact Hc.
+  - cbn [fst]. apply (Sync_finish cfg s _ pt d st' _ R [] K Hd (store_only s (with_ad s a) pt st' Sm) Hset). exact Hc.
+Qed.
+Lemma spec_update_many_Some os : forall ns l, NoDup l -> NoDup os -> NoDup ns ->
+  (forall n, In n ns -> ~ In n l) -> (forall n, In n ns -> ~ In n os) -> List.length os = List.length ns ->
+  ((exists l', spec_update_many l os ns = Some l') <-> (forall o, In o os -> In o l)).
+Proof.
+  induction os as [|o os' IH]; intros ns l ND NDo NDn Hf Hdj0 Hlen; destruct ns as [|n ns']; cbn [List.length] in Hlen; try discriminate.
+  - cbn [spec_update_many]. split; [intros _ o []|intros _; eauto].
+  - cbn [spec_update_many]. inversion NDo as [|? ? No NDo']; subst. inversion NDn as [|? ? Nn NDn']; subst.
+    assert (Nl : ~ In n l) by (apply Hf; left; reflexivity).
+    destruct (mem_rule o l) eqn:Mo.
+    + apply mem_rule_In in Mo.
+      assert (ND1 : NoDup (replace_first o n l)) by (apply replace_first_NoDup; assumption).
+      rewrite (IH ns' (replace_first o n l) ND1 NDo' NDn').
+      * split.
+        -- intros H x [<-|Hx]; [exact Mo|]. specialize (H x Hx).
+           apply (replace_first_In_iff o n l x ND Mo Nl) in H as [[H _]| ->]; [exact H|].
+           exfalso. apply (Hdj0 n (or_introl eq_refl)). right. exact Hx.
+        -- intros H x Hx. apply (replace_first_In_iff o n l x ND Mo Nl). left. split; [apply H; right; exact Hx|].
+           intros ->. contradiction.
+      * intros y Hy Hin. apply (replace_first_In_iff o n l y ND Mo Nl) in Hin as [[Hin _]| ->]; [apply (Hf y (or_intror Hy)); exact Hin|contradiction].
+      * intros y Hy Hin. apply (Hdj0 y (or_intror Hy)). right. exact Hin.
+      * lia.
+    + split; [intros [l' E]; discriminate|]. intros H. exfalso.
+      assert (In o l) by (apply H; left; reflexivity). apply mem_rule_In in H0. congruence.
+Qed.
+
+Lemma fold_c_update_In pt0 os : forall ns c y, NoDup os -> NoDup ns ->
+  (forall o, In o os -> In (pt0, o) c) -> (forall n, In n ns -> ~ In (pt0, n) c) ->
+  (forall n, In n ns -> ~ In n os) -> List.length os = List.length ns ->
+  (In y (fold_left (fun c on => c_update pt0 (fst on) (snd on) c) (combine os ns) c) <->
+   (In y c /\ ~ (fst y = pt0 /\ In (snd y) os)) \/ (fst y = pt0 /\ In (snd y) ns)).
+Proof.
+  induction os as [|o os' IH]; intros ns c y NDo NDn Ho Hn Hdj0 Hlen; destruct ns as [|n ns']; cbn [List.length] in Hlen; try discriminate.
+  - cbn [combine fold_left In]. tauto.
+  - cbn [combine fold_left fst snd]. inversion NDo as [|? ? No NDo']; subst. inversion NDn as [|? ? Nn NDn']; subst.
+    assert (Nc : ~ In (pt0, n) c) by (apply Hn; left; reflexivity).
+    assert (Oc : In (pt0, o) c) by (apply Ho; left; reflexivity).
+    rewrite (IH ns' (c_update pt0 o n c) y NDo' NDn').
+    + rewrite (c_update_In pt0 o n c y Nc). cbn [In]. destruct y as [py ry]. cbn [fst snd]. split.
+      * intros [[[[Hy N]|[_ E]] N2]|[E Hr]].
+        -- left. split; [exact Hy|]. intros [-> [<-|Hr]]; [apply N; auto|apply N2; auto].
+        -- inversion E; subst. right. auto.
+        -- right. auto.
+      * intros [[Hy N]|[-> [<-|Hr]]].
+        -- left. split; [left; split; [exact Hy|]|].
+           ++ intros [_ E]. inversion E; subst. apply N. auto.
+           ++ intros [-> Hr]. apply N. auto.
+        -- left. split; [right; auto|]. intros [_ Hr]. apply (Hdj0 n (or_introl eq_refl)). right. exact Hr.
+        -- right. auto.
+    + intros x Hx. apply (c_update_In pt0 o n c (pt0, x) Nc). left. split; [apply Ho; right; exact Hx|].
+      intros [_ E]. inversion E; subst. contradiction.
+    + intros x Hx Hin. apply (c_update_In pt0 o n c (pt0, x) Nc) in Hin as [[Hin _]|[_ E]].
+      * apply (Hn x (or_intror Hx)). exact Hin.
+      * inversion E; subst. contradiction.
+    + intros x Hx Hin. apply (Hdj0 x (or_intror Hx)). right. exact Hin.
+    + lia.
+Qed.
+
+Lemma update_many_wo_Sync os ns : rules_ok d os -> rules_ok d ns -> NoDup os -> NoDup ns ->
+  (forall n, In n ns -> ~ In n (pol (get_store s pt))) -> (forall n, In n ns -> ~ In n os) ->
+  Sync cfg (fst (update_many_wo d s pt os ns)).
+Proof.
+  intros [Wo Hao] [Wn Han] NDo NDn Hf Hdj. unfold update_many_wo.
+  destruct (Nat.eqb (List.length os) (List.length ns)) eqn:El; cbn [negb]; [|exact K]. apply Nat.eqb_eq in El.
+  open_persist s (AUpdateMany pt os ns) Hs a ok old Ea Cok Cfail Sm.
+  destruct ok; cbn [negb].
+  2:{ apply (Sync_same cfg s (with_ad s a) Sm); [apply Cfail; reflexivity|exact K]. }
+  rewrite get_store_with_ad. pose proof (proj1 M pt) as Ist.
+  destruct (update_many_spec (get_store s pt) os ns Ist Wo Wn NDn Hf Hdj) as [_ Hs'].
+  destruct (update_many (get_store s pt) os ns) as [st' updated]. cbn [fst snd] in *.
+  pose proof (spec_update_many_Some os ns _ (Inv_NoDup _ Ist) NDo NDn Hf Hdj El) as Hsome.
+  assert (Hfc : forall n, In n ns -> ~ In (pt, n) (content (ad s))) by (intros n Hn H; apply (Hf n Hn); apply (proj2 K pt d n Hd); exact H).
+  destruct (spec_update_many (pol (get_store s pt)) os ns) as [l'|] eqn:Esp; destruct Hs' as [Hb Hp]; subst updated; cbn [negb].
+  - assert (Hall : forall o, In o os -> In o (pol (get_store s pt))) by (apply Hsome; eauto).
+    assert (Hallc : forall o, In o os -> In (pt, o) (content (ad s))) by (intros o Ho; apply (proj2 K pt d o Hd); apply Hall; exact Ho).
+    assert (Hset : forall x, In x (pol st') <-> (In x (pol (get_store s pt)) /\ ~ In x os) \/ In x ns).
+    { intros x. rewrite Hp. apply (spec_update_many_In os ns _ l' x (Inv_NoDup _ Ist) NDn Hf Hdj Esp El). }
+    assert (Hc : forall pt' r0, In (pt', r0) (content a) <->
+       (In (pt', r0) (content (ad s)) /\ ~ (pt' = pt /\ In r0 os)) \/ (pt' = pt /\ In r0 ns)).
+    { intros pt' r0. rewrite (Cok eq_refl). cbn [content_after].
+      assert (Efa : forallb (fun o => mem_prule (pt, o) (content (ad s))) os = true).
+      { apply forallb_forall. intros o Ho. apply mem_prule_In. apply Hallc. exact Ho. }
+      rewrite Efa. cbn [fst].
+      rewrite (fold_c_update_In pt os ns _ (pt', r0) NDo NDn Hallc Hfc Hdj El). cbn [fst snd]. reflexivity. }
+    destruct (a_is_g d) eqn:Hg.
+    + pose proof (store_then_two_links d s (with_ad s a) pt st' os ns Sm) as Mc.
+      pose proof (ad_store_two_links d s a pt st' os ns) as Ead.
+      pose proof (ad_store_links d s a pt st' false os) as Ead1.
+      pose proof (store_then_links d s (with_ad s a) pt st' false os Sm) as Mc1.
+      destruct (links_update d (with_store (with_ad s a) pt st') pt false os) as [s3 lok1]. cbn [fst] in *.
+      destruct lok1; cbn [negb].
+      * destruct (links_update d s3 pt true ns) as [s4 lok2]. cbn [fst] in *.
+        apply (Sync_finish cfg s s4 pt d st' _ os ns K Hd Mc Hset). rewrite Ead. exact Hc.
+      * cbn [fst]. apply (Sync_finish cfg s s3 pt d st' _ os ns K Hd Mc1 Hset). rewrite Ead1. exact Hc.
+    + cbn [fst]. apply (Sync_finish cfg s _ pt d st' _ os ns K Hd (store_only s (with_ad s a) pt st' Sm) Hset). exact Hc.
+  - (* some old rule is not listed: the store rolled back, the (atomic) adapter refused too *)
+    cbn [fst].
+    assert (Hnot : ~ forall o, In o os -> In o (pol (get_store s pt))) by (intros H; apply Hsome in H as [l' E]; discriminate).
+    assert (Efa : forallb (fun o => mem_prule (pt, o) (content (ad s))) os = false).
+    { apply not_true_iff_false. intros E. apply Hnot. intros o Ho. rewrite forallb_forall in E.
+      apply (proj2 K pt d o Hd). apply mem_prule_In. apply E. exact Ho. }
+    apply (Sync_finish cfg s _ pt d st' _ [] [] K Hd (store_only s (with_ad s a) pt st' Sm)).
+    + intros x. rewrite Hp. cbn [In]. tauto.
+    + intros pt' r0. cbn [with_store with_ad ad]. rewrite (Cok eq_refl). cbn [content_after]. rewrite Efa. cbn [fst In]. tauto.
+Qed.
+End SyncOps.
+
+(* ---------- SavePolicy establishes, LoadPolicy preserves the synchronisation ---------- *)
+Lemma lookup_not_None {A} k (m : smap A) : lookup k m <> None <-> In k (map fst m).
+Proof.
+  induction m as [|[k' v] t IH]; cbn [lookup map fst In]; [tauto|].
+  destruct (String.eqb k k') eqn:E.
+  - apply String.eqb_eq in E. subst. split; [auto|discriminate].
+  - rewrite IH. apply String.eqb_neq in E. split; [auto|intros [H|H]; [congruence|exact H]].
+Qed.
+
+Lemma all_prules_In cfg s pt r : In (pt, r) (all_prules cfg s) <-> def_of cfg pt <> None /\ In r (pol (get_store s pt)).
+Proof.
+  unfold all_prules, def_of. rewrite in_flat_map, lookup_not_None. split.
+  - intros [[k d] [Hin H]]. cbn [fst] in H. apply in_map_iff in H as [r' [E Hr]]. inversion E; subst.
+    split; [apply in_map_iff; exists (pt, d); auto|exact Hr].
+  - intros [Hk Hr]. apply in_map_iff in Hk as [[k d] [E Hin]]. cbn [fst] in E. subst k.
+    exists (pt, d). split; [exact Hin|]. cbn [fst]. apply in_map. exact Hr.
+Qed.
+
+Theorem save_establishes_Sync cfg s : snd (save_policy cfg s) = ROk true -> Sync cfg (fst (save_policy cfg s)).
+Proof.
+  unfold save_policy. destruct (adapter_call (ad s) (ASave (all_prules cfg s))) as [[a ok] old] eqn:Ea.
+  destruct (adapter_call_content _ _ _ _ _ Ea) as [Cok _].
+  destruct ok; cbn [negb]; [|discriminate]. intros _.
+  assert (S0 : Sync cfg (with_ad s a)).
+  { split.
+    - intros pt r H. cbn [with_ad ad] in H. rewrite (Cok eq_refl) in H. cbn [content_after fst] in H.
+      apply all_prules_In in H. tauto.
+    - intros pt d r Hd. cbn [with_ad ad]. rewrite (Cok eq_refl). cbn [content_after fst]. rewrite get_store_with_ad, all_prules_In.
+      split; [tauto|]. intros H. split; [congruence|exact H]. }
+  cbn [with_ad watcher]. destruct (watcher s); cbn [fst]; exact S0.
+Qed.
+
+Lemma load_one_In cfg m x m' : LInv cfg m -> content_ok cfg [x] -> load_one cfg m x = Some m' ->
+  def_of cfg (fst x) <> None /\
+  forall pt r, In r (pol (mget m' pt)) <-> In r (pol (mget m pt)) \/ (pt, r) = x.
+Proof.
+  intros [I A] Hc H. destruct x as [pt0 r0]. cbn [load_one fst] in *.
+  destruct (Hc pt0 r0 (or_introl eq_refl)) as [Wr _].
+  destruct (def_of cfg pt0) as [d|] eqn:Hd; [|discriminate]. split; [discriminate|].
+  destruct (if a_is_g d then _ else _); [discriminate|].
+  fold (mget m pt0) in H. destruct (has (mget m pt0) r0) eqn:Hh; inversion H; subst.
+  - intros pt r. split; [auto|]. intros [H0|E]; [exact H0|]. inversion E; subst.
+    apply (has_iff_In _ _ (I pt0) Wr). exact Hh.
+  - intros pt r. rewrite mget_set_del. destruct (String.eqb pt pt0) eqn:E.
+    + apply String.eqb_eq in E. subst pt. rewrite add_pol, spec_insert_In. split.
+      * intros [->|H0]; auto.
+      * intros [H0|E]; [auto|inversion E; auto].
+    + apply String.eqb_neq in E. split; [auto|]. intros [H0|E2]; [exact H0|inversion E2; congruence].
+Qed.
+
+Lemma load_all_In cfg c : forall m m', LInv cfg m -> content_ok cfg c -> load_all cfg m c = Some m' ->
+  (forall x, In x c -> def_of cfg (fst x) <> None) /\
+  forall pt r, In r (pol (mget m' pt)) <-> In r (pol (mget m pt)) \/ In (pt, r) c.
+Proof.
+  induction c as [|x t IH]; intros m m' L Hc H; cbn [load_all] in H.
+  - inversion H; subst. split; [intros x []|]. intros pt r. cbn [In]. tauto.
+  - destruct (load_one cfg m x) as [m1|] eqn:E; [|discriminate].
+    assert (Hcx : content_ok cfg [x]) by (intros pt r [Hx|[]]; apply Hc; left; exact Hx).
+    destruct (load_one_In cfg m x m1 L Hcx E) as [Kx Hx].
+    assert (L1 : LInv cfg m1) by (apply (load_one_LInv cfg m x m1 L Hcx E)).
+    destruct (IH m1 m' L1 (fun pt r Hin => Hc pt r (or_intror Hin)) H) as [Kt Ht].
+    split; [intros y [<-|Hy]; [exact Kx|apply Kt; exact Hy]|].
+    intros pt r. rewrite Ht, Hx. cbn [In]. intuition.
+Qed.
+
+Theorem load_policy_Sync cfg s : NoDup (map fst cfg) -> content_ok cfg (content (ad s)) ->
+  snd (load_policy cfg s) = ROk true -> Sync cfg (fst (load_policy cfg s)).
+Proof.
+  intros NDc Hc. unfold load_policy.
+  destruct (adapter_call (ad s) ALoad) as [[a ok] old] eqn:Ea.
+  destruct (adapter_call_content _ _ _ _ _ Ea) as [Cok _].
+  destruct ok; cbn [negb]; [|discriminate].
+  assert (Eca : content a = content (ad s)) by (rewrite (Cok eq_refl); reflexivity). rewrite Eca.
+  destruct (load_all cfg [] (content (ad s))) as [m|] eqn:El; [|discriminate].
+  destruct (load_all_In cfg _ [] m (LInv_nil cfg) Hc El) as [Kc Hin].
+  destruct (rebuild_links cfg (sort_stores cfg m) cfg) as [ls lok]. destruct lok; cbn [negb]; [|discriminate]. intros _.
+  cbn [fst]. split.
+  - intros pt r H. cbn [ad] in H. rewrite Eca in H. apply (Kc (pt, r) H).
+  - intros pt d r Hd. cbn [ad]. rewrite Eca. unfold get_store. cbn [stores]. fold (mget (sort_stores cfg m) pt).
+    assert (Hperm : forall x, In x (pol (mget (sort_stores cfg m) pt)) <-> In x (pol (mget m pt))).
+    { intros x. destruct (mget_sort_stores cfg m pt) as [E|[c [P _]]]; [rewrite E; tauto|].
+      split; intros H; [apply (Permutation_in _ P H)|apply (Permutation_in _ (Permutation_sym P) H)]. }
+    rewrite Hperm, Hin. unfold mget. cbn [lookup pol empty_store In]. tauto.
+Qed.
+
+Lemma load_policy_content cfg s : content (ad (fst (load_policy cfg s))) = content (ad s).
+Proof.
+  unfold load_policy. destruct (adapter_call (ad s) ALoad) as [[a ok] old] eqn:Ea.
+  destruct (adapter_call_content _ _ _ _ _ Ea) as [C1 C2].
+  assert (E : content a = content (ad s)) by (destruct ok; [rewrite (C1 eq_refl); reflexivity|apply C2; reflexivity]).
+  destruct ok; cbn [negb]; [|exact E].
+  destruct (load_all cfg [] (content a)); [|exact E].
+  destruct (rebuild_links cfg _ cfg) as [ls lok]. destruct lok; exact E.
+Qed.
+
+(* ---------- the synchronisation holds after every history (auto-save on) ---------- *)
+Fixpoint sync_ok (cfg : mconf) (s : mstate) (op : mop) : Prop :=
+  match op with
+  | MAdd _ _ | MAddMany _ _ | MAddManyEx _ _ | MRemove _ _ | MRemoveMany _ _ | MUpdate _ _ _
+  | MRemoveFiltered _ _ _ => autosave s = true
+  | MUpdateMany _ os _ => autosave s = true /\ NoDup os
+  | MUpdateFiltered _ _ _ _ => False
+  | MSelf op' => sync_ok cfg s op'
+  | MClear => False            (* ClearPolicy is memory-only by design: it ends the synchronisation *)
+  | MLoad | MSave | MSetAutoSave _ | MSetAutoNotify _ | MFailNext _ => True
+  end.
+
+Lemma notify_Sync cfg s r ex upd : Sync cfg s -> Sync cfg (notify cfg s r ex upd).
+Proof.
+  intros K. apply (Sync_same cfg s _ (notify_mem cfg s r ex upd)); [|exact K].
+  unfold notify. destruct r as [[|]| | |]; try reflexivity. destruct (autonotify s); [|reflexivity]. destruct (watcher s); reflexivity.
+Qed.
+
+Theorem step_wo_Sync cfg op : forall s nt, NoDup (map fst cfg) -> MInv cfg s -> Sync cfg s ->
+  mop_ok cfg s op -> sync_ok cfg s op -> Sync cfg (fst (step_wo cfg s op nt)).
+Proof.
+  induction op; intros s nt NDc M K G Gs; cbn [step_wo mop_ok sync_ok] in *;
+    try (destruct (def_of cfg pt) as [d|] eqn:Hd; [|exact K]);
+    try (specialize (G d eq_refl)).
+  - destruct nt; cbn [fst snd]; [apply notify_Sync|]; apply add_wo_Sync; assumption.
+  - destruct nt; cbn [fst snd]; [apply notify_Sync|]; apply add_many_wo_Sync; assumption.
+  - destruct nt; cbn [fst snd]; [apply notify_Sync|]; apply add_many_wo_Sync; assumption.
+  - destruct nt; cbn [fst snd]; [apply notify_Sync|]; apply remove_wo_Sync; assumption.
+  - destruct nt; cbn [fst snd]; [apply notify_Sync|]; apply remove_many_wo_Sync; assumption.
+  - destruct G as [G1 G2]. destruct nt; cbn [fst snd]; [apply notify_Sync|]; apply update_wo_Sync; assumption.
+  - destruct G as [G1 [G2 [G3 [G4 G5]]]]. destruct Gs as [Gs1 Gs2].
+    destruct nt; cbn [fst snd]; [apply notify_Sync|]; apply update_many_wo_Sync; assumption.
+  - destruct nt; cbn [fst snd]; [apply notify_Sync|]; apply remove_filtered_wo_Sync; assumption.
+  - contradiction.
+  - apply IHop; assumption.
+  - contradiction.
+  - destruct G as [G1 G2]. destruct (load_policy_res cfg s) as [E|E].
+    + apply (Sync_same cfg s _ (load_policy_fail cfg s E)); [apply load_policy_content|exact K].
+    + apply load_policy_Sync; assumption.
+  - unfold save_policy in *. destruct (adapter_call (ad s) (ASave (all_prules cfg s))) as [[a ok] old] eqn:Ea.
+    destruct ok; cbn [negb].
+    + pose proof (save_establishes_Sync cfg s) as Hs. unfold save_policy in Hs. rewrite Ea in Hs. cbn [negb] in Hs.
+      apply Hs. destruct (watcher (with_ad s a)); reflexivity.
+    + cbn [fst]. destruct (adapter_call_content _ _ _ _ _ Ea) as [_ C2].
+      apply (Sync_same cfg s (with_ad s a)); [split; reflexivity|apply C2; reflexivity|exact K].
+  - cbn [fst]. apply (Sync_same cfg s); [split; reflexivity|reflexivity|exact K].
+  - cbn [fst]. apply (Sync_same cfg s); [split; reflexivity|reflexivity|exact K].
+  - cbn [fst]. apply (Sync_same cfg s); [split; reflexivity|reflexivity|exact K].
+Qed.
+
+Fixpoint sguards (cfg : mconf) (s : mstate) (ops : list mop) : Prop :=
+  match ops with
+  | [] => True
+  | op :: t => mop_ok cfg s op /\ sync_ok cfg s op /\ sguards cfg (fst (step cfg s op)) t
+  end.
+
+Theorem run_Sync cfg ops : forall s, NoDup (map fst cfg) -> MInv cfg s -> Sync cfg s -> sguards cfg s ops ->
+  MInv cfg (fst (run cfg s ops)) /\ Sync cfg (fst (run cfg s ops)).
+Proof.
+  induction ops as [|op t IH]; intros s NDc M K G; cbn [run fst]; [auto|]. destruct G as [G1 [G2 G3]].
+  pose proof (step_wo_MInv cfg op s true NDc M G1) as M1. pose proof (step_wo_Sync cfg op s true NDc M K G1 G2) as K1.
+  fold (step cfg s op) in M1, K1. destruct (step cfg s op) as [s1 r1]. cbn [fst] in *.
+  specialize (IH s1 NDc M1 K1 G3). destruct (run cfg s1 t). exact IH.
+Qed.
+
+(* with auto-save off the adapter is untouched until SavePolicy *)
+Theorem autosave_off_untouched cfg op : forall s nt, autosave s = false ->
+  match op with MSave | MLoad | MFailNext _ | MSetAutoSave _ | MSelf _ | MUpdateFiltered _ _ _ _ => False | _ => True end ->
+  ad (fst (step_wo cfg s op nt)) = ad s.
+Proof.
+  intros s nt Hoff Hk.
+  assert (Hn : forall c x r e u, ad (notify c x r e u) = ad x).
+  { intros c x r e u. unfold notify. destruct r as [[|]| | |]; try reflexivity. destruct (autonotify x); [|reflexivity]. destruct (watcher x); reflexivity. }
+  destruct op; cbn [step_wo] in *; try contradiction;
+    try (destruct (def_of cfg pt) as [d|]; [|reflexivity]);
+    try (destruct nt; cbn [fst snd]; [rewrite Hn|]).
+  all: try reflexivity.
+  all: match goal with
+    | |- ad (fst (add_wo ?d ?s ?pt ?r)) = _ =>
+        apply (proj1 (add_wo_R pt ad_untouched ad_untouched_refl (ad_untouched_store pt) (ad_untouched_links pt) (fun _ => True) ad_untouched_persist d s r I Hoff))
+    | |- ad (fst (add_many_wo ?d ?s ?pt ?rs ?arr)) = _ =>
+        apply (proj1 (add_many_wo_R pt ad_untouched ad_untouched_refl (ad_untouched_store pt) (ad_untouched_links pt) (fun _ => True) ad_untouched_persist d s rs arr I Hoff))
+    | |- ad (fst (remove_wo ?d ?s ?pt ?r)) = _ =>
+        apply (proj1 (remove_wo_R pt ad_untouched (ad_untouched_store pt) (ad_untouched_links pt) (fun _ => True) ad_untouched_persist d s r I Hoff))
+    | |- ad (fst (remove_many_wo ?d ?s ?pt ?rs)) = _ =>
+        apply (proj1 (remove_many_wo_R pt ad_untouched ad_untouched_refl (ad_untouched_store pt) (ad_untouched_links pt) (fun _ => True) ad_untouched_persist d s rs I Hoff))
+    | |- ad (fst (update_wo ?d ?s ?pt ?o ?n)) = _ =>
+        apply (proj1 (update_wo_R pt ad_untouched (ad_untouched_store pt) (ad_untouched_links pt) (fun _ => True) ad_untouched_persist d s o n I Hoff))
+    | |- ad (fst (update_many_wo ?d ?s ?pt ?os ?ns)) = _ =>
+        apply (proj1 (update_many_wo_R pt ad_untouched ad_untouched_refl (ad_untouched_store pt) (ad_untouched_links pt) (fun _ => True) ad_untouched_persist d s os ns I Hoff))
+    | |- ad (fst (remove_filtered_wo ?d ?s ?pt ?fi ?fvs)) = _ =>
+        apply (proj1 (remove_filtered_wo_R pt ad_untouched ad_untouched_refl (ad_untouched_store pt) (ad_untouched_links pt) (fun _ => True) ad_untouched_persist d s fi fvs I Hoff))
+    end.
+Qed.
+
+
+(* ---------- C15: every effective change is announced exactly once, after it is in place ---------- *)
+Definition is_ok_true (r : mres) : bool := match r with ROk true => true | _ => false end.
+Definition has_watcher (w : wkind) : bool := match w with WNone => false | _ => true end.
+
+(* the notification a watcher of kind w receives for a call: WatcherEx gets the call-specific
+   one for add/remove calls, UpdatableWatcher for update calls, everything else Update() *)
+Definition pick_notice (w : wkind) (ex upd : option notice) : notice :=
+  match w with
+  | WEx => match ex with Some n => n | None => NUpdate end
+  | WUpdatable => match upd with Some n => n | None => NUpdate end
+  | _ => NUpdate
+  end.
+
+Lemma notify_wlog cfg s r ex upd :
+  wlog (notify cfg s r ex upd) =
+    if is_ok_true r && autonotify s && has_watcher (watcher s)
+    then wlog s ++ [(pick_notice (watcher s) ex upd, snapshot cfg s)] else wlog s.
+Proof.
+  unfold notify, is_ok_true, has_watcher, pick_notice. destruct r as [[|]| | |]; cbn [andb]; try reflexivity.
+  destruct (autonotify s); cbn [andb]; [|reflexivity]. destruct (watcher s); reflexivity.
+Qed.
+
+Lemma notify_snapshot cfg s r ex upd : snapshot cfg (notify cfg s r ex upd) = snapshot cfg s.
+Proof.
+  unfold notify. destruct r as [[|]| | |]; try reflexivity. destruct (autonotify s); [|reflexivity].
+  destruct (watcher s); reflexivity.
+Qed.
+
+Definition notices_of (op : mop) : option (option notice * option notice) :=
+  match op with
+  | MAdd pt r => Some (Some (NAdd pt r), None)
+  | MAddMany pt rs | MAddManyEx pt rs => Some (Some (NAddMany pt rs), None)
+  | MRemove pt r => Some (Some (NRemove pt r), None)
+  | MRemoveMany pt rs => Some (Some (NRemoveMany pt rs), None)
+  | MUpdate pt o n => Some (None, Some (NUpdatePolicy pt o n))
+  | MUpdateMany pt os ns => Some (None, Some (NUpdatePolicies pt os ns))
+  | MRemoveFiltered pt fi fvs => Some (Some (NRemoveFiltered pt fi fvs), None)
+  | _ => None
+  end.
+
+Ltac ctl_of :=
+  match goal with
+  | |- same_ctl ?s (fst (add_wo ?d ?s ?pt ?r)) =>
+      apply (add_wo_R pt same_ctl same_ctl_refl (same_ctl_store pt) (same_ctl_links pt) (fun _ => True) same_ctl_persist d s r I)
+  | |- same_ctl ?s (fst (add_many_wo ?d ?s ?pt ?rs ?arr)) =>
+      apply (add_many_wo_R pt same_ctl same_ctl_refl (same_ctl_store pt) (same_ctl_links pt) (fun _ => True) same_ctl_persist d s rs arr I)
+  | |- same_ctl ?s (fst (remove_wo ?d ?s ?pt ?r)) =>
+      apply (remove_wo_R pt same_ctl (same_ctl_store pt) (same_ctl_links pt) (fun _ => True) same_ctl_persist d s r I)
+  | |- same_ctl ?s (fst (remove_many_wo ?d ?s ?pt ?rs)) =>
+      apply (remove_many_wo_R pt same_ctl same_ctl_refl (same_ctl_store pt) (same_ctl_links pt) (fun _ => True) same_ctl_persist d s rs I)
+  | |- same_ctl ?s (fst (update_wo ?d ?s ?pt ?o ?n)) =>
+      apply (update_wo_R pt same_ctl (same_ctl_store pt) (same_ctl_links pt) (fun _ => True) same_ctl_persist d s o n I)
+  | |- same_ctl ?s (fst (update_many_wo ?d ?s ?pt ?os ?ns)) =>
+      apply (update_many_wo_R pt same_ctl same_ctl_refl (same_ctl_store pt) (same_ctl_links pt) (fun _ => True) same_ctl_persist d s os ns I)
+  | |- same_ctl ?s (fst (remove_filtered_wo ?d ?s ?pt ?fi ?fvs)) =>
+      apply (remove_filtered_wo_R pt same_ctl same_ctl_refl (same_ctl_store pt) (same_ctl_links pt) (fun _ => True) same_ctl_persist d s fi fvs I)
+  end.
+
+Fixpoint is_mgmt (op : mop) : Prop :=
+  match op with
+  | MSave | MSetAutoSave _ | MSetAutoNotify _ | MFailNext _ => False
+  | MSelf op' => is_mgmt op'
+  | _ => True
+  end.
+
+(* the *WithoutNotify part of every management call — hence every Self* call —, ClearPolicy and
+   LoadPolicy leave flags, watcher and watcher log alone: they announce nothing *)
+Theorem step_wo_silent cfg op : forall s, is_mgmt op -> same_ctl s (fst (step_wo cfg s op false)).
+Proof.
+  induction op; intros s Hm; cbn [step_wo is_mgmt] in *; try contradiction;
+    try (destruct (def_of cfg pt) as [d|]; [|apply same_ctl_refl]);
+    cbn [fst snd]; try ctl_of.
+  - destruct (update_filtered_wo d s pt ns fi fvs) as [[s' r] old] eqn:E. cbn [fst].
+    replace s' with (fst (fst (update_filtered_wo d s pt ns fi fvs))) by (rewrite E; reflexivity).
+    apply (update_filtered_wo_R pt same_ctl (same_ctl_store pt) (same_ctl_links pt) (fun _ => True) same_ctl_persist d s ns fi fvs I).
+  - apply IHop. exact Hm.
+  - unfold clear_policy. cbn [fst]. repeat split.
+  - unfold load_policy. crunch; repeat split.
+Qed.
+
+Theorem self_announces_nothing cfg op s : is_mgmt op -> wlog (fst (step cfg s (MSelf op))) = wlog s.
+Proof. intros H. unfold step. cbn [step_wo]. apply (step_wo_silent cfg op s H). Qed.
+
+(* exactly one notification, of the right kind, with the post-state visible, iff the call was
+   effective (ok, no error) and a watcher is set with auto-notify on; nothing otherwise *)
+Theorem announce_exactly_once cfg op s ex upd : notices_of op = Some (ex, upd) ->
+  let s' := fst (step cfg s op) in let r := snd (step cfg s op) in
+  wlog s' = (if is_ok_true r && autonotify s && has_watcher (watcher s)
+             then wlog s ++ [(pick_notice (watcher s) ex upd, snapshot cfg s')] else wlog s).
+Proof.
+  intros Hn. unfold step.
+  assert (Hm : is_mgmt op) by (destruct op; try discriminate; exact I).
+  pose proof (step_wo_silent cfg op s Hm) as (_ & C2 & C3 & C4).
+  destruct op; cbn [notices_of] in Hn; try discriminate; inversion Hn; subst; cbn [step_wo] in *;
+    (destruct (def_of cfg pt) as [d|]; [|cbn [fst snd is_ok_true andb]; reflexivity]);
+    cbn [fst snd] in *; rewrite notify_wlog, notify_snapshot, C2, C3, C4; reflexivity.
 Qed.
